@@ -13,7 +13,7 @@ META = {
             '<= D emulator operations (put character, graphics rectangle, clear rows, scroll up/down, attribute, page switch, page copy; 3x2 cells, 2 pages) '
             'that the consumer shows exactly the visible page (and finds the counterexample when scrolling is modelled as coded before the repair). '
             'For the code, a recording video queue is installed in a real Session; random histories of PRINT (wrapping, scrolling), CLS, COLOR, LOCATE, '
-            'VIEW PRINT, WIDTH, SCREEN mode and page switches, PCOPY, KEY ON/OFF, typed INPUT lines (scroll down), PSET/LINE/CIRCLE/PAINT/PUT on all adapters '
+            'VIEW PRINT, WIDTH, SCREEN mode and page switches, PCOPY, KEY ON/OFF, typed INPUT lines (scroll down), PSET/LINE/CIRCLE/PAINT/VIEW on all adapters '
             'and a redraw as done by a resumed session are run; Python only cuts sprites and get_pixels()/get_chars() into cells and interns pixel blocks; '
             'VideoSignals_Trace.tla applies the signals and demands display = emulator after every statement.',
     'note': 'Trusted: TLC; the reduction of pixel payloads to per-cell classes (equal class <=> equal bytes); Display.vpage.pixels[:, :] is read instead of '
@@ -276,7 +276,7 @@ def run(ctx):
     # 2. code -> spec
     rec = Recorder(ctx)
     rng = ctx.rng
-    nhist = ctx.pick(24, 500)
+    nhist = ctx.pick(16, 350)
     adapters = list(ADAPTER_MODES)
     for hno in range(nhist):
         random_history(rec, rng, adapters[hno % len(adapters)], rng.randint(25, 70))
